@@ -154,8 +154,8 @@ class SeenSet:
         if self.all_seen:
             return True
         if not assignment:
-            self.all_seen = True
-            self.seen.append(assignment)
+            # an assignment that binds nothing is covered only by a stored assignment that binds nothing (all_seen).
+            # Checking is not storing: marking everything as seen here made the caches claim rows they never stored.
             return False
         for constraint in self.seen:
             if all(assignment[k] == v if k in assignment else False for k, v in constraint.items()):
